@@ -24,6 +24,14 @@ struct tag_t
 {
 };
 
+// byte type of the third instantiation: std::byte where the language has it (the documentation's own choice), unsigned char otherwise
+#if __cplusplus >= 201703L
+#    include <cstddef>
+typedef std::byte c14_byte3_t;
+#else
+typedef unsigned char c14_byte3_t;
+#endif
+
 static unsigned long long g_cells = 0, g_mismatch = 0, g_asserts = 0, g_strlen_cells = 0;
 static unsigned long long g_per_op[24];
 static const char* const op_names[] = {"assign_string_cstr", "assign_string_range", "assign_range_vector",
@@ -504,7 +512,7 @@ struct for_n
         for_n<N - 1>::run();
         tester<char, N, char>::run();
         tester<std::uint8_t, N, char>::run();
-        tester<std::int8_t, N, unsigned char>::run();
+        tester<std::int8_t, N, c14_byte3_t>::run();
         std::printf("DONE N=%zu cells=%llu strlen_cells=%llu\n", N, g_cells, g_strlen_cells);
     }
 };
@@ -516,7 +524,7 @@ struct for_n<0>
     {
         tester<char, 0, char>::run();
         tester<std::uint8_t, 0, char>::run();
-        tester<std::int8_t, 0, unsigned char>::run();
+        tester<std::int8_t, 0, c14_byte3_t>::run();
         std::printf("DONE N=0 cells=%llu strlen_cells=%llu\n", g_cells, g_strlen_cells);
     }
 };
